@@ -12,7 +12,7 @@ class ExtractError(Exception):
     pass
 
 
-def _tree_hash(src_dir, feature):
+def _tree_hash(src_dir, feature, crates_env=None):
     h = hashlib.sha256()
     files = [os.path.join(src_dir, "Cargo.toml"), os.path.join(src_dir, "Cargo.lock")]
     for root, _, fs in os.walk(os.path.join(src_dir, "src")):
@@ -31,7 +31,7 @@ def _tree_hash(src_dir, feature):
             h.update(hashlib.sha256(fh.read()).digest())
     except OSError:
         raise ExtractError("pgfacts driver missing: run MANIFEST.setup_cmd")
-    h.update(os.environ.get("PGFACTS_CRATES", "").encode())
+    h.update((crates_env if crates_env is not None else os.environ.get("PGFACTS_CRATES", "")).encode())
     return h.hexdigest()[:20]
 
 
@@ -41,9 +41,11 @@ def extract(src_dir=None, feature="", crates=None):
     os.makedirs(WORK, exist_ok=True)
     env = dict(os.environ)
     if crates:
+        # (only in the child's environment: a value left behind in this process would make every later extraction emit facts for
+        # the wrong crates - seen as a spurious "configuration does not build" when a concurrent first-time extraction of the shared
+        # controls crate failed half-way)
         env["PGFACTS_CRATES"] = ",".join(crates)
-        os.environ["PGFACTS_CRATES"] = env["PGFACTS_CRATES"]
-    key = _tree_hash(src_dir, feature)
+    key = _tree_hash(src_dir, feature, env.get("PGFACTS_CRATES", ""))
     tag = os.path.basename(os.path.abspath(src_dir))
     out = os.path.join(WORK, "facts-%s-%s-%s" % (tag, feature or "default", key))
     stamp = os.path.join(out, "OK")
@@ -75,8 +77,17 @@ def extract(src_dir=None, feature="", crates=None):
         shutil.rmtree(tmp, ignore_errors=True)
         raise ExtractError("driver produced no fact file for crate %s" % want)
     open(os.path.join(tmp, "OK"), "w").write("ok")
-    shutil.rmtree(out, ignore_errors=True)
-    os.rename(tmp, out)
+    # publish; another process may have published the same content (same key) in the meantime - then that copy serves
+    if os.path.exists(stamp):
+        shutil.rmtree(tmp, ignore_errors=True)
+    else:
+        try:
+            shutil.rmtree(out, ignore_errors=True)
+            os.rename(tmp, out)
+        except OSError:
+            if not os.path.exists(stamp):
+                raise
+            shutil.rmtree(tmp, ignore_errors=True)
     # garbage-collect old fact dirs for the same tag/feature (keep 6 most recent)
     olds = sorted(glob.glob(os.path.join(WORK, "facts-%s-%s-*" % (tag, feature or "default"))),
                   key=os.path.getmtime)
